@@ -12,7 +12,7 @@
 (* armed timers instead (Tick moves every armed timer's start back, never  *)
 (* further than its own interval), which is bisimilar and finite.          *)
 (***************************************************************************)
-EXTENDS Naturals, Integers, Sequences, FiniteSets, TLC
+EXTENDS Naturals, Integers, Sequences, FiniteSets, TLC, Json
 CONSTANTS Cfgs,      \* set of world configuration records (harness/world.py DEFAULT_CFG shape)
           K,         \* fault budget
           Faults,    \* subset of {"drop", "dup", "swap", "flip", "wrej", "delay"}
@@ -273,5 +273,5 @@ UnboundedWait == \/ (hs.state = "BUSY" /\ hs.step = "WAITING_FOR_FINISHED" /\ hs
 RestOrWait == <>[](Done \/ UnboundedWait \/ ((hs.state = "IDLE" \/ UnboundedWait) /\ (hd.state = "IDLE" \/ UnboundedWait)))
 \* schedule emission: print each complete behaviour once (Record: the history is part of the state)
 Terminal == Done \/ Stuck \/ (Record /\ Len(hist) >= MaxHist)
-EmitSched == (Record /\ Terminal) => PrintT(<<"SCHED", cfg.id, IF Done THEN "done" ELSE IF Stuck THEN "stuck" ELSE "open", hist>>)
+EmitSched == (Record /\ Terminal) => PrintT("SCHED" \o ToJson([c |-> cfg.id, st |-> IF Done THEN "done" ELSE IF Stuck THEN "stuck" ELSE "open", h |-> hist]))
 ====
